@@ -479,7 +479,9 @@ class XPathContext:
             if self.document is not None or self.item is not self.root:
                 item = self.item
 
-                if item.parent is not None:
+                if isinstance(item, (AttributeNode, NamespaceNode)):
+                    pass  # attribute and namespace nodes have no siblings
+                elif item.parent is not None:
                     status = self.item, self.axis
                     self.axis = axis or 'following-sibling'
 
@@ -555,6 +557,12 @@ class XPathContext:
         if isinstance(self.item, XPathNode):
             if self.document is not None or self.item is not self.root:
                 item = self.item
+                if isinstance(item, (AttributeNode, NamespaceNode)):
+                    # The preceding nodes of attributes and namespaces
+                    # are the ones of their parent element.
+                    if item.parent is None:
+                        return
+                    item = item.parent
 
                 if (root := item.parent) is not None:
                     status = self.item, self.axis
@@ -577,19 +585,39 @@ class XPathContext:
 
     def iter_followings(self) -> Iterator[ta.ChildNodeType]:
         """Iterator for 'following' forward axis."""
-        if isinstance(self.item, ElementNode):
+        descendants: set[ta.ChildNodeType]
+        root: XPathNode
+
+        if isinstance(self.item, XPathNode):
+            root = self.item
+            if isinstance(root, (AttributeNode, NamespaceNode)):
+                # As for libxml2 the following nodes of attributes and
+                # namespaces are the ones of their parent element.
+                if root.parent is None:
+                    return
+                root = root.parent
+
+            if isinstance(root, ElementNode):
+                descendants = set(root.iter_descendants())
+            elif isinstance(root, DocumentNode):
+                return
+            else:
+                descendants = set()
+            position = root.position
+
+            while root.parent is not None:
+                if root is self.root and self.document is None:
+                    break
+                root = root.parent
+            if not isinstance(root, (ElementNode, DocumentNode)):
+                return  # a node without a parent
+
             status = self.item, self.axis
             self.axis = 'following'
 
-            descendants = set(self.item.iter_descendants())
-            position = self.item.position
-
-            root = self.item
-            while isinstance(root.parent, ElementNode) and root is not self.root:
-                root = root.parent
-
             for item in root.iter_descendants(with_self=False):
-                if position < item.position and item not in descendants:
+                if position < item.position and item not in descendants \
+                        and not isinstance(item, DocumentNode):
                     self.item = item
                     yield item
 
